@@ -427,6 +427,25 @@ func execUpload(vec J, out *Writer) {
 		})
 		defer control.SetCopyHook(nil)
 	}
+	if fk == "destfile" {
+		// the destination named by the caller is not a directory but a regular file
+		os.RemoveAll(dst)
+		write(dst, "destfile")
+	}
+	selfState := func(p string) string {
+		st, err := os.Lstat(p)
+		switch {
+		case err != nil:
+			return "absent"
+		case st.IsDir():
+			return "dir"
+		}
+		b, _ := os.ReadFile(p)
+		if key, ok := originals[string(b)]; ok {
+			return "full:" + key
+		}
+		return "partial"
+	}
 	before := J{"src": snapshot(src, originals), "dst": snapshot(dst, originals), "out": snapshot(outside, originals), "sub": snapshot(filepath.Join(src, "sub"), originals)}
 	w := newWatcher(map[string]string{"src": src, "dst": dst, "out": outside, "sub": filepath.Join(src, "sub")})
 	var operr error
@@ -456,7 +475,7 @@ func execUpload(vec J, out *Writer) {
 		hd = "src"
 	}
 	out.Put(J{"ev": "up", "in": vec, "ctl": ctlName, "bases": bases, "events": events, "err": operr != nil, "panic": panicked,
-		"handle": hd, "hook_fired": hookFired, "before": before,
+		"handle": hd, "hook_fired": hookFired, "before": before, "dst_self": selfState(dst),
 		"after": J{"src": snapshot(src, originals), "dst": snapshot(dst, originals), "out": snapshot(outside, originals), "sub": snapshot(filepath.Join(src, "sub"), originals)}})
 }
 
